@@ -66,6 +66,7 @@ ResOf(a) ==
     [] a.op = "corrupt"       -> CorruptRes(pool[a.a], a.f)
     [] a.op = "encrypt_other" -> EncryptOtherRes(pool[a.p], a.mode)
     [] a.op = "keyswitch"     -> KeySwitchRes(pool[a.a])
+    [] a.op = "reload"        -> ReloadRes(pool[a.a])
     [] a.op = "add_many"      -> AddManyRes([i \in 1..Len(a.ops) |-> pool[a.ops[i]]])
     [] a.op = "multiply_many" -> MultiplyManyRes([i \in 1..Len(a.ops) |-> pool[a.ops[i]]])
 
